@@ -5,6 +5,7 @@ package main
 import (
 	"fmt"
 	"go/ast"
+	"go/parser"
 	"go/token"
 	"reflect"
 	"sort"
@@ -456,6 +457,93 @@ func c20GoGoConformance(cx *Ctx, r *Report, gogo []*genFile) {
 
 // pulsar side: fast-reflection code looks fields up by name and switches on
 // full field names; the grpc stubs carry rpc names.
+// c20ApiGrpc: the api family's gRPC description (the *_grpc.pb.go next to each
+// *.pulsar.go that declares a service) lists exactly the methods of the service in the
+// embedded descriptor, under the descriptor's full service name: a generator that was
+// not re-run after an rpc was added leaves the api family unable to serve or call it.
+func c20ApiGrpc(cx *Ctx, r *Report, api []*genFile) {
+	rel := func(p string) string { return strings.TrimPrefix(p, cx.Repo+"/") }
+	n := 0
+	for _, a := range api {
+		if len(a.fd.GetService()) == 0 {
+			continue
+		}
+		gp := strings.TrimSuffix(a.path, ".pulsar.go") + "_grpc.pb.go"
+		fset := token.NewFileSet()
+		f, err := parser.ParseFile(fset, gp, nil, parser.SkipObjectResolution)
+		if err != nil {
+			for _, sv := range a.fd.GetService() {
+				r.violate("api-grpc-servicedesc", a.fd.GetPackage()+"."+sv.GetName(), rel(gp), "no gRPC file next to the pulsar file that declares the service ("+err.Error()+")")
+			}
+			continue
+		}
+		// ServiceDesc literals: name -> methods
+		descs := map[string][]string{}
+		ast.Inspect(f, func(nd ast.Node) bool {
+			cl, ok := nd.(*ast.CompositeLit)
+			if !ok {
+				return true
+			}
+			se, ok := cl.Type.(*ast.SelectorExpr)
+			if !ok || se.Sel.Name != "ServiceDesc" {
+				return true
+			}
+			name := ""
+			var methods []string
+			for _, el := range cl.Elts {
+				kv, ok := el.(*ast.KeyValueExpr)
+				if !ok {
+					continue
+				}
+				k, _ := kv.Key.(*ast.Ident)
+				if k == nil {
+					continue
+				}
+				switch k.Name {
+				case "ServiceName":
+					if bl, ok := kv.Value.(*ast.BasicLit); ok {
+						name, _ = strconv.Unquote(bl.Value)
+					}
+				case "Methods":
+					ast.Inspect(kv.Value, func(n2 ast.Node) bool {
+						kv2, ok := n2.(*ast.KeyValueExpr)
+						if !ok {
+							return true
+						}
+						if k2, ok := kv2.Key.(*ast.Ident); ok && k2.Name == "MethodName" {
+							if bl, ok := kv2.Value.(*ast.BasicLit); ok {
+								m, _ := strconv.Unquote(bl.Value)
+								methods = append(methods, m)
+							}
+						}
+						return true
+					})
+				}
+			}
+			if name != "" {
+				descs[name] = methods
+			}
+			return false
+		})
+		for _, sv := range a.fd.GetService() {
+			n++
+			full := a.fd.GetPackage() + "." + sv.GetName()
+			var want []string
+			for _, m := range sv.GetMethod() {
+				want = append(want, m.GetName())
+			}
+			got, has := descs[full]
+			got = append([]string{}, got...)
+			sort.Strings(want)
+			sort.Strings(got)
+			r.check(has && strings.Join(want, ",") == strings.Join(got, ","), "api-grpc-servicedesc", full, rel(gp), fmt.Sprintf("the api family's ServiceDesc lists the descriptor's %d methods", len(want)), fmt.Sprintf("the api family's gRPC ServiceDesc for %s lists [%s], the embedded descriptor has [%s]: the two families disagree on the service's methods", full, strings.Join(got, ","), strings.Join(want, ",")))
+		}
+	}
+	if n < 15 {
+		r.toolErr("only %d api services with a gRPC file checked (≥15 confirmed)", n)
+	}
+}
+
 func c20PulsarConformance(cx *Ctx, r *Report, api []*genFile) {
 	rel := func(p string) string { return strings.TrimPrefix(p, cx.Repo+"/") }
 	for _, a := range api {
